@@ -41,3 +41,29 @@ Theorem C09_remove_dispatch : forall pre post locals lo hi o n fl,
   fl = local_bool (toks_asg post) (bs "files").
 Proof. exact dispatch_remove_gentle. Qed.
 Print Assumptions C09_remove_dispatch.
+
+(* ---- the regenerated constants this property's predicate / model rest on, against literals.
+   Gen/Consts.v is rewritten from the source of /repo on every run, so without this theorem an
+   edit of one of these constants would move model, predicate and code together and nothing
+   would be reported.  Used by: what `add` itself creates (C09.created_by_add) and the remove branch of Model/Layers.v; the predicate spells "layerconfig" and "~removed" out itself.
+   "frozen" = no manual text gives the value; it is the value of the reviewed tree. *)
+From LC Require Import Gen.Consts Proofs.C09PinsP.
+Local Open Scope string_scope.
+Theorem C09_constants_pinned :
+  (* property C09 text "<name>~removed"; manual page, remove: "append ~removed to the layer name" *)
+  D_RemovedLayerSuffix = bs "~removed" /\
+  (* doc/layercake_directories.adoc, manual page LAYER DIRECTORY: "layerconfig" *)
+  D_LayerconfigFile = bs "layerconfig" /\
+  (* frozen from the reviewed tree (what `add` writes to build/root/.bashrc of a base layer; not documented) *)
+  D_BaseLayerRootBashrc = bs "#!/bin/bash
+
+source /etc/profile
+msg=chroot
+if [ -n ""$LAYERCAKE_LAYER"" ]; then
+        msg=""chroot $LAYERCAKE_LAYER""
+fi
+export PS1=""($msg) \[\033]0;\u@\h:\w\007\]\[\033[01;31m\]\h\[\033[01;34m\] \w \$\[\033[00m\] ""
+
+".
+Proof. exact c09_constants_pinned. Qed.
+Print Assumptions C09_constants_pinned.
